@@ -145,6 +145,10 @@ def run(tier, seed):
     n = 12000 if thorough else 300
     structural = ['((y)(y))', 'a((y)(y))', '(i(s(y)(y))d)', '((y)(y)(y))', 'a{s(y)}a{s(y)}', '(a{sv}a{sv})', '((a{s(y)})(a(y)))',
                   '(((y))((y)))', 'a(a(y)a(y))', '(y(y)y(y))', 'aa{y(a{ys})}(a{ys}a{ys})']
+    # the nesting limits of the specification, exactly and one short of them: 32 structs, 32 arrays, both, dict entries
+    for d in (30, 31, 32):
+        structural += ['(' * d + 'y' + ')' * d, 'a' * d + 'y', 'a' * d + '(' * d + 'y' + ')' * d, '(' * d + 'i' + ')' * d + 's',
+                       'a{y' * min(d, 31) + 'y' + '}' * min(d, 31), 'y' + '(' * d + 'ai' + ')' * d]
     for sg in structural:
         try:
             got = tuple(tuple(p) for p in marshal.genCompleteTypes(sg))
